@@ -274,17 +274,26 @@ func dlExec(r *Run, line string) {
 	}
 	for b := range cl.chain {
 		if b >= start && int64(b) < last && !seen[b] {
-			r.Fail(fmt.Sprintf("[C05] block %d with watched events was skipped: a later block (%d) was handed over without it", b, last), []string{line})
+			tag := "[C05]"
+			if len(ws) > 10 {
+				tag = "[C05] F6 after six consecutive header answers that disagree with the logs the range fetch gives up and the loop treats the range as empty:"
+			}
+			r.Fail(fmt.Sprintf("%s block %d with watched events was skipped: a later block (%d) was handed over without it", tag, b, last), []string{line})
 			return
 		}
 	}
 }
+
+// directed schedule for known finding F6: the first range lies below the finalized block and its only event block meets
+// six disagreeing header answers in a row (calls 0..5), so the fetch gives up in iteration 0
+const dlF6 = "run 1 10 1 20 3:31;15:151 20,20,1;20,20,1 - - 0:m;1:m;2:m;3:m;4:m;5:m G:0"
 
 func dlGen(r *Run, rng *Rng) {
 	n := 250
 	if r.Tier == "thorough" {
 		n = 3000
 	}
+	dlExec(r, dlF6)
 	for i := 0; i < n; i++ {
 		chunk := []uint64{0, 1, 2, 3, 7, 10, 50}[rng.Intn(7)]
 		span := uint64(8 + rng.Intn(40))
